@@ -57,12 +57,17 @@ MemberOf(v) == CASE v.t = "int"  -> <<"int", "", v.val>>
                  [] v.t = "bool" -> <<"bool", IF v.val = 0 THEN "false" ELSE "true", W0>>
                  [] v.t = "json" -> <<v.jcls, v.jcanon, W0>>
 
+\* string values that are not UTF-8 (descriptor spelling "#hex:"): such a value cannot be stored
+BadUtf8Vals == {"#hex:fffe", "#hex:61ff62", "#hex:c0af"}
 \* Set: result [err, map]; err = ANY where the property is silent
 MSet(m, v) ==
   IF v.t \in {"int", "str", "bool"} THEN
        IF NameBad(v.name) THEN [err |-> "INVALID", map |-> m]
        ELSE IF v.t = "str" /\ v.val = NONE THEN [err |-> "INVALID", map |-> m]
        ELSE IF v.name \in DOMAIN m /\ v.replace = 0 THEN [err |-> "EXIST", map |-> m]
+       \* a named deviation, as the code has it: a string that is not UTF-8 is refused only after a replaced
+       \* member has been removed (the statement speaks of empty names and malformed JSON text only)
+       ELSE IF v.t = "str" /\ v.val \in BadUtf8Vals THEN [err |-> "INVALID", map |-> MapDel(m, v.name)]
        ELSE [err |-> "NONE", map |-> MapPut(m, v.name, MemberOf(v))]
   ELSE IF v.t = "json" THEN
        IF v.jcls = "objx" THEN [err |-> ANY, map |-> m]      \* opaque object (contents not modelled, C05)
@@ -263,8 +268,6 @@ CkAfterLeeway(ck, claim, secs, ret) ==
        IN IF claim = "exp" THEN [ck EXCEPT !.flags = fl, !.expLee = secs]
           ELSE [ck EXCEPT !.flags = fl, !.nbfLee = secs]
 StrClaim(claim) == claim \in {"iss", "sub", "aud"}
-\* expected values that are not UTF-8 (descriptor spelling "#hex:"): the value cannot be stored
-BadUtf8Vals == {"#hex:fffe", "#hex:61ff62", "#hex:c0af"}
 ClaimSetRet(claim, val) == IF StrClaim(claim) /\ val # NONE /\ val \notin BadUtf8Vals THEN 0 ELSE 1
 \* A named deviation, as the code has it: when storing the value fails, the claim has already been made
 \* mandatory and the previous expectation has already been dropped - the checker then refuses every
